@@ -505,6 +505,7 @@ def run(chk):
     chk.rule("W3", "per format: chunk_size stored by init == (bytes emitted by the encoder for the initialised header) - 8")
     chk.rule("W4", "block_align = bps*ch, byte_rate = sfreq*bps*ch, bits_per_sample = 8*bps, audio_format by format; set_num_frames: data = frames*block_align, sample_length = frames*channels, chunk_size keeps its header part")
     chk.rule("W6", "every field that init / set_num_frames can make non-zero is transferred by the encoder case of that format (otherwise encode->decode is not the identity)")
+    chk.rule("pack", "C12's transfer rules P1-P5 on pack.c (single advance, exact fits guard, in-item accesses, zero/NULL handling, byte order)")
     chk.rule("W5", "rf_wavheader_validate returns 0 on the abstract post-state of rf_wavheader_init, independent of stale memory")
     chk.assumptions += [
         "rf_(un)pack_* behave as C12 establishes (widths and byte order taken from the callee's name)",
@@ -520,3 +521,15 @@ def run(chk):
     check_w4(chk, m, fn, wh, fmt_arg, states)
     check_w5(chk, m, states)
     check_w6(chk, m, states, E)
+    # the round trip rests on the cursor functions transferring every item that fits, whole and in the stated byte order,
+    # and nothing else (C12's rules on pack.c)
+    from . import C12
+    chk.rule_prefix = "pack."
+    chk.rule_filter = lambda r: r.startswith(("P1", "P2", "P3", "P4", "P5"))
+    mp = build.load_unit("librfn/pack.c")
+    chk.note_unit(mp)
+    for f2 in mp.defined_functions():
+        if C12.is_pack_fn(f2) and C12.NAME_RE.match(f2.name):
+            C12.check_transfer(chk, mp, f2)
+    chk.rule_prefix = ""
+    chk.rule_filter = None
